@@ -52,7 +52,7 @@ def main():
         res["demo_patched_tail"] = o.strip()[-300:]
         for c in checks:
             t0 = time.time()
-            code, out = sh(["./check", c, "--tier", tier], cwd=VERIF, timeout=7200)
+            code, out = sh(["./check", c, "--tier", tier], cwd=VERIF, timeout=7200, env=dict(os.environ, VERIF_EVIDENCE_DIR="/tmp/rg-seeded-evidence"))
             lines = [l for l in out.splitlines() if l.startswith(("VIOLATION", "KNOWN-FINDING", "INFRA")) or l.startswith(c + " tier")]
             res["checks"][c] = {"rc": code, "wall_s": round(time.time() - t0, 1), "lines": lines[-6:]}
             for l in lines:
